@@ -2878,7 +2878,10 @@ func treasureToKeyValuePair(treasureInterface treasure.Treasure, t *hydrapb.Trea
 		modifiedBy := treasureInterface.GetModifiedBy()
 		t.UpdatedBy = &modifiedBy
 	}
-	if treasureInterface.GetExpirationTime() > 0 {
+	// ExpirationTime == 0 means "never expires"; every other value - including a
+	// pre-epoch (negative) one - is a real expiration that the expired-shift,
+	// expired-patch, index and filter paths act on, so it must be reported too.
+	if treasureInterface.GetExpirationTime() != 0 {
 		t.ExpiredAt = timestamppb.New(time.Unix(0, treasureInterface.GetExpirationTime()))
 	}
 
